@@ -42,6 +42,9 @@ type c08cfg struct {
 	massKill bool
 	lazyQ    int
 	dialMs   int // dials succeed, but may take this long (queries queue on the dialing connection)
+	pDialHang int // percent of dials that hang until their context ends (black-holed SYN): the one failure of a fresh attempt
+	dialFailed map[int]bool // call -> a dial started for it failed
+	hangs    [][2]time.Duration // [start, end] of every dial that hung
 	w        *W1
 	attempts map[int][]attempt // call -> writes
 	opener   map[int]int       // conn -> call index that opened it (-1 unknown)
@@ -80,6 +83,9 @@ func c08Setup(rc *RunCtx) simrt.Config {
 	rc.Cfg["lazy_queue"] = c.lazyQ
 	c.dialMs = pick(0, 0, 1, 20)
 	rc.Cfg["dial_ms"] = c.dialMs
+	c.pDialHang = pick(0, 0, 0, 10)
+	c.dialFailed = map[int]bool{}
+	rc.Cfg["p_dial_hang"] = c.pDialHang
 	rc.Net.ChunkMode = r.Choose(3)
 	rc.Cfg["strategy"] = sname
 	rc.Cfg["kind"] = c.kind.String()
@@ -134,10 +140,28 @@ func c08Main(rc *RunCtx) {
 		return a
 	}
 	ep := rc.Net.Handle("tcp", srvAddr, w.Serve(ServerOpts{Plan: plan}))
-	if c.dialMs > 0 {
+	if c.dialMs > 0 || c.pDialHang > 0 {
 		ep.DialFault = func(ctx context.Context, nth int) error {
-			simrt.Sleep(0, time.Duration(1+simrt.Choose(c.dialMs))*time.Millisecond)
-			simrt.Fault("slow_dial")
+			if simrt.Choose(100) < c.pDialHang {
+				// the dial never completes; it ends with its own (dial timeout) context
+				simrt.Fault("dial_hangs_until_its_timeout")
+				for t := simrt.CurTaskID(); t >= 0; t = simrt.TaskParent(t) {
+					if ci, ok := c.callerTask[t]; ok {
+						if x := c.curCall[ci]; x != nil {
+							c.dialFailed[x.Idx] = true
+						}
+						break
+					}
+				}
+				t0 := simrt.S.Elapsed()
+				simrt.Recv(0, ctx.Done())
+				c.hangs = append(c.hangs, [2]time.Duration{t0, simrt.S.Elapsed()})
+				return ctx.Err()
+			}
+			if c.dialMs > 0 {
+				simrt.Sleep(0, time.Duration(1+simrt.Choose(c.dialMs))*time.Millisecond)
+				simrt.Fault("slow_dial")
+			}
 			return nil
 		}
 	}
@@ -284,6 +308,22 @@ func c08CheckCall(rc *RunCtx, c *c08cfg, x *Call) {
 	// licence (i): a connection was opened for this call. Both transports stop
 	// retrying after an attempt on a connection of their own, so that attempt was
 	// the last one (it may have failed before anything was written).
+	if c.dialFailed[x.Idx] {
+		// a connection was being opened for this call and the dial failed: the
+		// fresh attempt failed, the failure is reported
+		simrt.Probe("c08.failed_on_own_failed_dial")
+		return
+	}
+	for _, h := range c.hangs {
+		if h[0] <= x.EndAt && h[1] >= x.StartAt {
+			// A hung dial overlapped this call. Attempts that end in a failed dial
+			// write nothing, so the attempt accounting below cannot see them (the call
+			// may have been queued on a connection another call was dialing, more
+			// than once): the run says nothing about this call.
+			simrt.Probe("c08.inconclusive_hung_dial_overlaps")
+			return
+		}
+	}
 	own, ownUnused := false, -1
 	for id, op := range c.opener {
 		if op != x.Idx {
